@@ -152,6 +152,22 @@ def run(run, thorough):
             run.fail('harness', 'sandbox failure', {'error': res.get('harness_error'), 'scenario': scn})
             continue
         judge_overlap(run, scn, res)
+    # an argument is a NAME: '@todo' designates the entry called '@todo', whatever a file 'todo' next to it may list
+    atf = []
+    for argv, extra in itertools.product((['--', '@todo'], ['@todo'], ['-v', '--', '@todo', 'other']), (True, False)):
+        tree = [['d', '/home/u', 0o755], ['d', '/home/u/w', 0o755], ['f', '/home/u/w/@todo', 'the argument'], ['f', '/home/u/w/victim', 'never named'],
+                ['f', '/home/u/w/other', 'other']]
+        if extra:
+            tree.append(['f', '/home/u/w/todo', 'victim\n'])
+        atf.append({'tree': tree, 'mounts': [], 'cwd': '/home/u/w', 'uid': 0, 'env': {'HOME': '/home/u', 'TRASH_VOLUMES': '/'},
+                    'judge_meta': {'family': 'atfile', 'named': ['/home/u/w/' + a for a in argv if not a.startswith('-')],
+                                   'bystanders': ['/home/u/w/victim', '/home/u/w/todo'] + ([] if 'other' in argv else ['/home/u/w/other'])},
+                    'steps': [{'cmd': 'put', 'argv': argv, 'now': [2024, 5, 6, 7, 8, 9, 0]}]})
+    for scn, res in zip(atf, sandbox.execute_many(atf)):
+        if res.get('harness_error') or not res.get('steps'):
+            run.fail('harness', 'sandbox failure', {'error': res.get('harness_error'), 'scenario': scn})
+            continue
+        judge_atfile(run, scn, res)
     # the known finding: '..' after a symlinked directory
     known = {'tree': [['d', '/home/u', 0o755], ['d', '/other/dir', 0o755], ['f', '/other/x', 'theirs'], ['f', '/home/u/x', 'mine'],
                       ['l', '/home/u/link', '/other/dir']], 'mounts': [], 'cwd': '/home/u', 'uid': 0,
@@ -190,6 +206,20 @@ def judge_selfnest(run, scn, res, section='trash-dir-inside-argument'):
     run.nontriv(('selfnest', arg, o['exit'], bool(moved), scn['steps'][0]['argv'][0]))
 
 
+def judge_atfile(run, scn, res, section='argument-beginning-with-@'):
+    run.count(section)
+    o = res['steps'][0]
+    before, after = res['before'], o['after']
+    jm = scn['judge_meta']
+    case = {'scenario': scn, 'exit': o['exit'], 'stderr': o['stderr'][-400:]}
+    touched = [p for p in jm['bystanders'] if p in before and after.get(p) != before.get(p)]
+    left = [p for p in jm['named'] if p in after]
+    if touched or left or o['exit'] != 0:
+        run.fail('oracle', "an argument beginning with '@' names the entry of that name: it must be trashed (exit 0) and nothing that was not "
+                 'named may move', dict(case, not_trashed=left, moved_though_not_named=touched), key='at-argument-expanded', section=section)
+    run.nontriv(('atfile', tuple(scn['steps'][0]['argv']), o['exit'], '/home/u/w/todo' in before))
+
+
 def judge_overlap(run, scn, res, section='argument-inside-a-later-one'):
     run.count(section)
     o = res['steps'][0]
@@ -209,6 +239,9 @@ def replay(run, payload):
     case = payload.get('case') or {}
     scn = case.get('scenario')
     if not scn:
+        return
+    if (scn.get('judge_meta') or {}).get('family') == 'atfile':
+        judge_atfile(run, scn, sandbox.execute(scn), 'replay')
         return
     if (scn.get('judge_meta') or {}).get('family') == 'overlap':
         judge_overlap(run, scn, sandbox.execute(scn), 'replay')
